@@ -694,6 +694,11 @@ class C19(Prop):
         if k == "q":
             return f"qv {c['quote']} {enc(c['s'])}" if lean_ok_str(c["s"]) else None
         if k == "lit":
+            # the model's `\d` is ASCII-only (Python's matches every Unicode Nd digit, which needs the
+            # Unicode database); q never writes a lone backslash, so this only limits this stream
+            import unicodedata
+            if any(ord(ch) > 127 and unicodedata.category(ch) == "Nd" for ch in c["text"]):
+                return None
             return f"lit {enc(c['text'])}" if lean_ok_str(c["text"]) else None
         if k == "key":
             key = c["key"]
